@@ -165,6 +165,12 @@ def generate(api):
         m = need(r"let\s+cacheable\s*=\s*(units\s*==\s*Units::UserSpaceOnUse\s*&&\s*primitive_units\s*==\s*Units::UserSpaceOnUse);", body, "filter cacheable")
         d1 = tr_block('filter_cacheable', '(units primitive_units : units_)', 'bool', "{ %s }" % m.group(1))
         need(r"rect\s*=\s*crate::checked_bbox_transform\(rect,\s*object_bbox\)", body, "filter region via checked_bbox_transform")
+        # both units attributes are resolved from the referenced filter itself (own attribute, then its href chain),
+        # NOT from the template that happens to supply the primitives
+        need(r"let\s+units\s*=\s*convert_units\(node,\s*AId::FilterUnits,\s*Units::ObjectBoundingBox\);\s*"
+             r"let\s+primitive_units\s*=\s*convert_units\(node,\s*AId::PrimitiveUnits,\s*Units::UserSpaceOnUse\);", body,
+             "filter: filterUnits / primitiveUnits resolved from the filter node")
+        need(r"collect_children\(\s*&node_with_primitives,\s*primitive_units,", body, "filter: primitives of the template converted with the filter's primitiveUnits")
         p2, r2, b2 = rs.find_fn(src, 'resolve_primitive_region')
         unwraps = r"x\.unwrap_or\(0\.0\),\s*y\.unwrap_or\(0\.0\),\s*width\.unwrap_or\(1\.0\),\s*height\.unwrap_or\(1\.0\),?\s*"
         need(r"EId::FeFlood\s*\|\s*EId::FeImage\s*=>\s*\{\s*if\s+units\s*==\s*Units::ObjectBoundingBox\s*\{\s*let\s+bbox\s*=\s*bbox\?;\s*"
@@ -184,5 +190,18 @@ def generate(api):
                       "{ NonZeroRect::from_xywh(x.unwrap_or(region.x()), y.unwrap_or(region.y()), width.unwrap_or(region.width()), height.unwrap_or(region.height())) }")
         return "\n".join([d1, d2, d3, d4])
     section('filter::convert_url / resolve_primitive_region', 'crates/usvg/src/parser/filter.rs', g_filter)
+
+    # tree/mod.rs Group::calculate_object_bbox: the box every clip / mask / filter of a group is resolved with
+    def g_objbox(src):
+        params, ret, body = rs.find_fn(src, 'calculate_object_bbox')
+        need(r"for\s+child\s+in\s+&self\.children\s*\{\s*if\s+let\s+Node::Group\(ref\s+group\)\s*=\s*child\s*\{\s*"
+             r"if\s+!group\.has_children\(\)\s*&&\s*group\.filters\.is_empty\(\)\s*\{\s*continue;\s*\}\s*\}", body,
+             "calculate_object_bbox: only child groups without content are skipped")
+        need(r"let\s+mut\s+c_bbox\s*=\s*child\.bounding_box\(\);\s*if\s+let\s+Node::Group\(ref\s+group\)\s*=\s*child\s*\{\s*"
+             r"if\s+let\s+Some\(r\)\s*=\s*c_bbox\.transform\(group\.transform\)\s*\{\s*c_bbox\s*=\s*r;\s*\}\s*\}\s*"
+             r"bbox\s*=\s*bbox\.expand\(c_bbox\);\s*\}\s*bbox\.to_non_zero_rect\(\)", body,
+             "calculate_object_bbox: union of the children's boxes (child group boxes through the group transform)")
+        return "Definition OBJECT_BBOX_SKIPS_ONLY_EMPTY_GROUPS : bool := true."
+    section('Group::calculate_object_bbox', 'crates/usvg/src/tree/mod.rs', g_objbox)
 
     api.write_gen('LeafObb.v', "\n".join(out))
